@@ -49,6 +49,16 @@ type Cex struct {
 	Where     string            `json:"where,omitempty"`
 	Params    map[string]int    `json:"params,omitempty"`
 	Notes     map[string]string `json:"notes,omitempty"`
+	FS        []FSEntry         `json:"fs,omitempty"` // surviving file tree at the crash point
+}
+
+// FSEntry is one node of the file-system model at a crash point.
+type FSEntry struct {
+	Path   string `json:"path"`
+	Kind   string `json:"kind"` // dir, file, link
+	Mode   uint32 `json:"mode"`
+	Data   []byte `json:"data,omitempty"`
+	Target string `json:"target,omitempty"`
 }
 
 type CexInput struct {
@@ -145,6 +155,7 @@ type Engine struct {
 	WantWitnesses int
 	Witnesses     []*Cex
 	pathReach     []string
+	crashTree     func(model map[string]uint64) []FSEntry
 }
 
 type pathAbort struct{}
@@ -543,13 +554,25 @@ func (e *Engine) Explore(entry *ssa.Function, cfg RunConfig) {
 	if e.ShardN > 1 {
 		// breadth-first expansion until the frontier is wide enough, then keep our share.
 		// (paths completed during the expansion are explored by every shard: counted once by shard 0)
-		for len(e.work) > 0 && len(e.work) < e.ShardN*8 && e.Paths < e.ShardN*64 {
+		for len(e.work) > 0 && len(e.work) < e.ShardN*48 && e.Paths < e.ShardN*400 {
 			prefix := e.work[0]
 			e.work = e.work[1:]
 			e.sharedPhase = e.ShardI != 0
 			e.runPath(entry, prefix)
 		}
 		e.sharedPhase = false
+		if e.ShardI != 0 {
+			// the expansion phase is run identically by every shard; only shard 0 reports it
+			e.Paths, e.Instrs, e.FeasQueries = 0, 0, 0
+			e.PathOutcomes = map[string]int{}
+			e.Labels = map[string]*LabelStat{}
+			e.Reach = map[string]int{}
+			e.Cexs = nil
+			e.Witnesses = nil
+			e.Samples = nil
+			e.Unsupported = map[string]int{}
+			e.BoundHits = map[string]int{}
+		}
 		var mine [][]decision
 		for i, w := range e.work {
 			if i%e.ShardN == e.ShardI {
@@ -597,6 +620,7 @@ func (e *Engine) resetPath() {
 	e.pathAssertFailed = false
 	e.mapOrderPerm = false
 	e.afterCrash = nil
+	e.crashTree = nil
 	e.pathReach = e.pathReach[:0]
 }
 
@@ -676,6 +700,9 @@ func (e *Engine) runPath(entry *ssa.Function, prefix []decision) {
 func (e *Engine) runAfterCrash() {
 	fn := e.afterCrash
 	e.afterCrash = nil
+	if e.fsys != nil {
+		e.crashTree = e.fsys.snapshot()
+	}
 	e.aborting = false
 	e.outcome = Outcome{Kind: "ok", Detail: "after-crash"}
 	e.gs = nil
@@ -807,6 +834,9 @@ func (e *Engine) recordCex(label string, m map[string]uint64, where string) {
 		c.Decisions = append(c.Decisions, d.Choice)
 	}
 	c.Events = append([]string(nil), e.events...)
+	if e.crashTree != nil {
+		c.FS = e.crashTree(m)
+	}
 	e.Cexs = append(e.Cexs, c)
 }
 
